@@ -823,6 +823,8 @@ func (runInfo *runInfoStruct) runDeferStmt(stmt *ast.DeferStmt) {
 	if f.Kind() == reflect.Interface && !f.IsNil() {
 		f = f.Elem()
 	}
+	// the function is the one at the defer statement
+	f = detachValue(f)
 	if f.Kind() != reflect.Func {
 		runInfo.err = newStringError(stmt, "cannot call type "+f.Kind().String())
 		runInfo.rv = nilValue
